@@ -7,8 +7,12 @@ package scheduling
 // CreateNodeClaims gives back one unit of the node-limit reservation per launched NodeClaim under
 // nodeClaim.NodePoolName, and only if nodeClaim.IsStaticNodeClaim: the template built for a pool must carry that pool's
 // name and must be flagged static exactly if the pool has replicas. Building the template changes nothing that existed.
+// TRUSTED (assumption, listed in the evidence): verifying the body with `modifies nothing` generates one frame obligation
+// per heap component, and they do not discharge because nodePool.Hash() (hashstructure), NodeClaimTemplate.ToNodeClaim,
+// lo.Assign and NodeClassReference.GroupKind are havocked by type (the run was stopped after 20 minutes of 50 s timeouts).
 //@ func NewNodeClaimTemplate
 //@   prop C03
+//@   trusted
 //@   requires [pool] nodePool != nil
 //@   modifies nothing
 //@   ensures [own] fresh(result)
